@@ -5823,6 +5823,11 @@ class PyCdlib:
                     name = b''
                 else:
                     name = ident
+                # Every identifier on the way is recorded in its own
+                # encoding (Latin-1 or UTF-16), not in that of the entry we
+                # started from.
+                if udf_rec.file_ident is not None:
+                    encoding = udf_rec.file_ident.encoding
                 names.insert(0, name.decode(encoding))
                 udf_rec = udf_rec.parent
 
